@@ -329,6 +329,9 @@ func indent(thread *starlark.Thread, b *starlark.Builtin, args starlark.Tuple, k
 	return starlark.String(buf.String()), nil
 }
 
+// maxNesting is the deepest array/object nesting json.decode accepts.
+const maxNesting = 10000
+
 func decode(thread *starlark.Thread, b *starlark.Builtin, args starlark.Tuple, kwargs []starlark.Tuple) (v starlark.Value, err error) {
 	var s string
 	var d starlark.Value
@@ -358,6 +361,16 @@ func decode(thread *starlark.Thread, b *starlark.Builtin, args starlark.Tuple, k
 	}
 
 	i := 0
+
+	// The parser recurses once per nesting level of its input, so the
+	// nesting is bounded (as in encoding/json) to protect the Go stack.
+	depth := 0
+	enter := func() {
+		if depth++; depth > maxNesting {
+			fail("exceeded max nesting depth %d", maxNesting)
+		}
+	}
+	leave := func() { depth-- }
 
 	// skipSpace consumes leading spaces, and reports whether there is more input.
 	skipSpace := func() bool {
@@ -446,6 +459,8 @@ func decode(thread *starlark.Thread, b *starlark.Builtin, args starlark.Tuple, k
 
 		case '[':
 			// array
+			enter()
+			defer leave()
 			var elems []starlark.Value
 
 			i++ // '['
@@ -469,6 +484,8 @@ func decode(thread *starlark.Thread, b *starlark.Builtin, args starlark.Tuple, k
 
 		case '{':
 			// object
+			enter()
+			defer leave()
 			dict := new(starlark.Dict)
 
 			i++ // '{'
